@@ -26,11 +26,11 @@ PROPS = {
 
 PROPS["C20"] = {
     "lean": ["OlricModel.Props.C20"],
-    "streams": [("churn", (30, 500), (300, 2000)), ("kv", (15, 300), (200, 400))],
+    "streams": [("churn", (30, 500), (300, 2000)), ("kv", (15, 300), (200, 400)), ("cchurn", (5, 160), (40, 300))],
     "model": True,
-    "level_text": "Invariant theorems over every reachable state of the store model: bytes in use = bytes of live records and inuse+garbage = bytes written for every table (so every superseding write, delete, raw write and compaction move turns the old bytes into garbage); Compaction reports done exactly when every retired table is below the 40% threshold, and the worker's call-until-done loop reaches that state in a bounded number of calls; a recycled table is reused before a new one is allocated; per-table bound 3*alloc < 5*inuse + 5*E + 1 for every non-empty retired table of every reachable state once compaction is done (entries of at most E bytes). Tied to internal/kvstore by the lock-step churn/kv streams whose dumps expose the counters.",
+    "level_text": "Invariant theorems over every reachable state of the store model: bytes in use = bytes of live records and inuse+garbage = bytes written for every table (so every superseding write, delete, raw write and compaction move turns the old bytes into garbage); Compaction reports done exactly when every retired table is below the 40% threshold, and the worker's call-until-done loop reaches that state in a bounded number of calls; a recycled table is reused before a new one is allocated; per-table bound 3*alloc < 5*inuse + 5*E + 1 for every non-empty retired table of every reachable state once compaction is done (entries of at most E bytes). Tied to internal/kvstore by the lock-step churn/kv streams whose dumps expose the counters; the member-level worker (internal/dmap/compaction.go: every primary and backup fragment, until done) by an extracted fact and by the cchurn stream, which churns a cluster's DMap through the API, runs the worker and checks the slab statistics of every primary and backup fragment against the threshold.",
     "design_ref": "DESIGN.md §6 C20",
-    "modelled": "internal/kvstore (as C11); dmap/compaction.go's worker loop is not modelled (it calls Compaction until done)",
+    "modelled": "internal/kvstore (as C11); dmap/compaction.go's worker loop is KV.compactLoop (call Compaction until done), its coverage of primary and backup fragments is an extracted fact",
     "assumptions": [
         "the bound is proved for every state a workload with entries of at most E bytes reaches from a fresh store (C20_bound_reachable: 'retired => nearly full' is the invariant KV.Churn, kept by every operation); compaction-to-done is proved to terminate below the threshold (C20_compaction_reaches_threshold) for every iteration order that enumerates the drained table's keys once (Go's map range); table transfer (export / import) is outside the workloads of this theorem",
         "float64 rounding of the 0.40 ratio is not modelled",
